@@ -295,9 +295,140 @@ Definition spec_C04_late_c (st : pstate) (e : rcexpr) : list (string * form) :=
   end.
 Definition spec_C04_swept (st : pstate) := per_cons "C04" (spec_C04_late_c st) st.
 
+(* ================================================================== *)
+(* C08: every indicator equals its documented definition on the schedule.  The value of an indicator is
+   the schedule variable VInd i (what build_solution reports).  "P" clauses are covered by the soundness
+   theorem, "S" clauses are swept against the real constraint system. *)
+Definition ikey (r : indrec) (k : string) : string := ("C08/ind:" ++ show_nat (i_id r) ++ "/" ++ k)%string.
+Definition horizon_of (r : indrec) : term := match i_hz r with Some h => TC h | None => TV VHorizon end.
+Definition all_mandatory (ts : list tinfo) : bool := forallb (fun t => negb (ti_opt t)) ts.
+Definition t_pos (x : term) : term := t_max (TC 0) x.                       (* max(0, x) *)
+Definition lateness (t : tinfo) : term := TSub (E_ t) (TC (due_of t)).
+Definition when_t (c : form) (x : term) : term := TIte c x (TC 0).
+(* twice the area under the cost function over a busy interval (exact for constant and linear costs) *)
+Definition cost_area2 (c : costfn) (lo up : term) : term := TMul (TAdd [cost_apply c lo; cost_apply c up]) (TSub up lo).
+Definition is_const (c : costfn) : bool := match c with CostConst _ => true | _ => false end.
+Definition const_val (c : costfn) : Z := match c with CostConst v => v | _ => 0 end.
+
+Definition spec_C08_P (r : indrec) : list (string * form) :=
+  let I := TV (VInd (i_id r)) in
+  let ts_of := tasks_of (i_all r) in
+  match i_expr r with
+  | IExpr t => [("expression", FEq I t)]
+  | IUtilization rc =>
+      (* percentage of the horizon the resource is busy, rounded down *)
+      let busy := TAdd (map (fun '(s, e) => TSub e s) (own_pairs (rc_snap rc))) in
+      let H := horizon_of r in
+      [("utilization", FImp (FLt (TC 0) H)
+          (FAnd [FLe (TMul H I) (TMul (TC 100) busy); FLt (TMul (TC 100) busy) (TMul H (TAdd [I; TC 1]))]))]
+  | INbTasks rc =>
+      [("nb_tasks_assigned", FEq I (TAdd (map (fun '(s, _) => when_t (FLe (TC 0) s) (TC 1)) (own_pairs (rc_snap rc)))))]
+  | ITardiness ts =>
+      [("tardiness", FEq I (TAdd (map (fun t => when_t (FAnd [act t; FLt (TC (due_of t)) (E_ t)])
+                                                      (TMul (TC (ti_prio t)) (lateness t))) (ts_of ts))))]
+  | IEarliness ts =>
+      [("earliness", FEq I (TAdd (map (fun t => when_t (act t) (t_pos (TSub (TC (due_of t)) (E_ t)))) (ts_of ts))))]
+  | INbTardy ts =>
+      if all_mandatory (ts_of ts) then
+        [("nb_tardy", FEq I (TAdd (map (fun t => when_t (FLt (TC (due_of t)) (E_ t)) (TC 1)) (ts_of ts))))] else []
+  | IMaxLateness ts =>
+      if all_mandatory (ts_of ts) then
+        [("max_lateness_bound", FAnd (map (fun t => FLe (lateness t) I) (ts_of ts)));
+         ("max_lateness_attained", FOr (map (fun t => FEq I (lateness t)) (ts_of ts)))] else []
+  | ICost rs =>
+      (* sum of the cost function accumulated over busy time; one rounding (down) of the half-units *)
+      let entries := flat_map (fun rc => map (fun '(w, b) => (cost_of rc w, bsv w b, bev w b)) (all_busy (rc_snap rc))) rs in
+      let const2 := TAdd (map (fun '(c, lo, up) => if is_const c then TMul (TC 2) (TMul (TC (const_val c)) (TSub up lo)) else TC 0) entries) in
+      let var2 := TAdd (map (fun '(c, lo, up) => if is_const c then TC 0 else cost_area2 c lo up) entries) in
+      [("resource_cost", FAnd [FLe (TMul (TC 2) I) (TAdd [const2; var2]);
+                               FLt (TAdd [const2; var2]) (TAdd [TMul (TC 2) I; TC 2])])]
+  | IMaxBuf b =>
+      [("max_buffer_bound", FAnd (map (fun l => FLe l I) (bn_levels b)));
+       ("max_buffer_attained", FOr (map (fun l => FEq I l) (bn_levels b)))]
+  | IMinBuf b =>
+      [("min_buffer_bound", FAnd (map (fun l => FLe I l) (bn_levels b)));
+       ("min_buffer_attained", FOr (map (fun l => FEq I l) (bn_levels b)))]
+  | IMinStart ts =>
+      [("min_start_bound", FAnd (map (fun t => FLe I (S_ t)) (ts_of ts)));
+       ("min_start_attained", FOr (map (fun t => FEq I (S_ t)) (ts_of ts)))]
+  | IGreatestStart ts =>
+      [("greatest_start_bound", FAnd (map (fun t => FLe (S_ t) I) (ts_of ts)));
+       ("greatest_start_attained", FOr (map (fun t => FEq I (S_ t)) (ts_of ts)))]
+  | IWeightedStarts =>
+      [("weighted_starts", FEq I (TAdd (map (fun t => when_t (act t) (TMul (TC (ti_prio t)) (S_ t))) (i_all r))))]
+  | IFlowtime ts =>
+      [("flowtime", FEq I (TAdd (map (fun t => when_t (act t) (E_ t)) (ts_of ts))))]
+  | ITotalPriority =>
+      [("weighted_completion", FEq I (TAdd (map (fun t => when_t (act t) (TMul (TC (ti_prio t)) (E_ t))) (i_all r))))]
+  | IIdle _ | IFlowSingle _ _ => []
+  end.
+
+(* swept only: optional tasks in unguarded indicators, idle time, flow time on a single resource *)
+Definition spec_C08_S (st : pstate) (r : indrec) : list (string * form) :=
+  let I := TV (VInd (i_id r)) in
+  let ts_of := tasks_of (i_all r) in
+  match i_expr r with
+  | INbTasks rc =>
+      (* in the final problem: assignments made after the indicator was created count as well, and a
+         cumulative worker is assigned every acting task that requires it *)
+      (match late_busy st (rc_snap rc), res_resobj st (rs_obj (rc_snap rc)) with
+       | _ :: _, Some r' => [("nb_tasks_late", FEq I (TAdd (map (fun '(s, _) => when_t (FLe (TC 0) s) (TC 1)) (own_pairs r'))))]
+       | _, _ => [] end)
+      ++ (match rs_obj (rc_snap rc) with
+          | ResC c => match find_cumul st c with
+                      | Some cu => [("nb_tasks_cumulative", FEq I (TAdd (map (fun t => when_t (act t) (TC 1)) (cumul_uses st cu))))]
+                      | None => [] end
+          | ResW _ => [] end)
+  | INbTardy ts =>
+      if all_mandatory (ts_of ts) then [] else
+        [("nb_tardy_optional", FEq I (TAdd (map (fun t => when_t (FAnd [act t; FLt (TC (due_of t)) (E_ t)]) (TC 1)) (ts_of ts))))]
+  | IMaxLateness ts =>
+      if all_mandatory (ts_of ts) then [] else
+        [("max_lateness_optional", FImp (FOr (map act (ts_of ts)))
+            (FAnd [FAnd (map (fun t => whenact t (FLe (lateness t) I)) (ts_of ts));
+                   FOr (map (fun t => FAnd [act t; FEq I (lateness t)]) (ts_of ts))]))]
+  | IIdle rc =>
+      (* sum of the gaps between each assigned busy interval and the next assigned one in time order *)
+      let ps := own_pairs (rc_snap rc) in
+      [("idle", FImp (FAnd (map (fun '(s, e) => FLe s e) ps)) (FEq I (TAdd (map (fun '((s1, e1), others) =>
+            TAdd (map (fun '(s2, _) =>
+                    when_t (FAnd ([FLe (TC 0) s1; FLe (TC 0) s2; FLt s1 s2]
+                                  ++ map (fun '(s3, _) => FNot (FAnd [FLe (TC 0) s3; FLt s1 s3; FLt s3 s2]))
+                                         (filter (fun p => negb (term_beq (fst p) s2)) others)))
+                           (TSub s2 e1)) others)) (with_others [] ps)))))]
+  | IFlowSingle rc iv =>
+      let lo := match iv with Some (lo, _) => TC lo | None => TC 0 end in
+      let hi := match iv with Some (_, hi) => TC hi | None => TV VHorizon end in
+      let ts := map be_task (rs_own (rc_snap rc)) in
+      let inside t := FAnd [FLe lo (S_ t); FLe (E_ t) hi] in
+      [("flowtime_single_resource",
+        FAnd (map (fun a => FAnd (map (fun b =>
+               FImp (FAnd ([inside a; inside b]
+                           ++ map (fun c => FImp (inside c) (FAnd [FLe (E_ c) (E_ a); FLe (S_ b) (S_ c)])) ts))
+                    (FEq I (TSub (E_ a) (S_ b)))) ts)) ts))]
+  | _ => []
+  end.
+
+(* indicator targets and bounds declared as constraints *)
+Definition spec_C08_cons (e : rcexpr) : list (string * form) :=
+  match e with
+  | CIndTarget i v => [("indicator_target", FEq (TV (VInd i)) (TC v))]
+  | CIndBounds i lo hi =>
+      (match lo with Some l => [("indicator_lower_bound", FLe (TC l) (TV (VInd i)))] | None => [] end)
+      ++ (match hi with Some h => [("indicator_upper_bound", FLe (TV (VInd i)) (TC h))] | None => [] end)
+  | _ => []
+  end.
+
+Definition spec_C08 (st : pstate) : list (string * form) :=
+  flat_map (fun r => map (fun '(k, f) => (ikey r k, f)) (spec_C08_P r)) (x_inds (ps_ext st))
+  ++ per_cons "C08" spec_C08_cons st.
+Definition spec_C08_swept (st : pstate) : list (string * form) :=
+  flat_map (fun r => map (fun '(k, f) => (ikey r k, f)) (spec_C08_S st r)) (x_inds (ps_ext st)).
+
 Definition spec_all (st : pstate) : list (string * form) :=
   spec_C01 st ++ spec_C02 st ++ spec_C02_capacity st ++ spec_C03 st ++ spec_C03_swept st
-  ++ spec_C04 st ++ spec_C04_swept st ++ spec_C06 st ++ spec_C10 st.
+  ++ spec_C04 st ++ spec_C04_swept st ++ spec_C06 st ++ spec_C10 st
+  ++ spec_C08 st ++ spec_C08_swept st.
 
 (* ================================================================== *)
 (* C18: which constructor calls are well formed (the rule list of the property text, completed by
